@@ -172,7 +172,7 @@ PROPS['C13'] = dict(
 PROPS['C15'] = dict(
     title='incomplete mode',
     units=['wrap', 'kwstack'],
-    engines=[dict(module='gvc.engine', args=dict(analyses=('nullable', 'entries', 'faithful')))],
+    engines=[dict(module='gvc.engine', args=dict(analyses=('nullable', 'entries', 'faithful', 'assumed')))],
     shims=['A-nom', 'A-packrat'],
     design='DESIGN.md 3/C15',
     technique='generated nullable/manyok fixpoint over all productions, shape rules on the four top-level productions, absence of Failure producers; Verus contract on parse_sv_pp / parse_lib_pp (mode switch, Error::Parse only from a parser Err)',
